@@ -587,15 +587,15 @@ where
         };
 
         if req.claimed {
+            // The end is not registered if it was marked as claimed by a claim request that the
+            // broker then refused (e.g. because the other end had been closed in the meantime).
             match req.end {
                 ChannelEnd::Sender => {
-                    let contained = self.senders.remove(&req.cookie);
-                    debug_assert!(contained.is_some());
+                    self.senders.remove(&req.cookie);
                 }
 
                 ChannelEnd::Receiver => {
-                    let contained = self.receivers.remove(&req.cookie);
-                    debug_assert!(contained.is_some());
+                    self.receivers.remove(&req.cookie);
                 }
             }
         }
